@@ -297,6 +297,9 @@ impl Model for HModel {
     fn next_state(&self, st: &HState, pop: PathOp) -> Option<HState> {
         journal(format!("hist {} n={} img={} op={:?}", self.s.id(), self.n, hex(&st.img), pop).as_bytes());
         let r = step(self.s, &self.d, &st.img, &pop);
+        // stateright runs this on its own worker thread, which goes away with the checker: never
+        // leave its journal slot marked as "inside a case"
+        harness::report::journal_idle();
         let id = self.s.id();
         let fam = family(id);
         let mut g = self.sink.lock().unwrap();
